@@ -101,11 +101,13 @@ def register(reg):
     # exactly the five that cannot be hashed (they do not change how the grammar is loaded) - from the property: "different options"
     reg.specfun('OPTSTR', [('d', 'OptDict'), ('n', 'int')], 'str',
                 body="'' if n <= 0 else OPTSTR(d, n - 1) + ('' if ITEMK(d, n - 1) in %s else repr((ITEMK(d, n - 1), str(ITEMV(d, n - 1)))))" % UNH)
+    reg.cls('LarkK', fields={'source_path': 'any'})
     reg.contract('lark.lark:Lark.__init__#key', serves=['C12', 'C11'], region=key_region,
-                 params={'grammar': 'str', 'options': 'OptDict'},
+                 params={'grammar': 'str', 'options': 'OptDict', 'self': 'LarkK'},
                  ensures=[], ghost={
                      'ensures_fall': ['options_str == OPTSTR(options, NITEMS(options))',
-                                      's == repr((grammar, OPTSTR(options, NITEMS(options)), VERSION, PYVER))',
+                                      # ... together with the grammar text and the path relative imports are resolved from (F44)
+                                      's == repr((grammar, self.source_path, OPTSTR(options, NITEMS(options)), VERSION, PYVER))',
                                       'cache_sha256 == SHA(s)'],
                      'join:\'\'.join#0': 'OPTSTR(options, _i)'},
                  names={'__version__': ('sv', VERSION), 'expr:sys.version_info[:2]': ('sv', PYVER),
